@@ -43,7 +43,7 @@ def report_history_failures(ctx, results, prop):
         if kind == "EXC":
             ctx.fail("%s:%s:exception" % (prop, op), "an edit of the sampler grammar raised: %s" % what.splitlines()[0], replay)
         elif kind == prop:
-            shape = what.split(" of ")[0].split(":")[0][:40].replace(" ", "_")
+            shape = what.split(" of ")[0].split(":")[0].split(" differs")[0].split(" %")[0][:40].strip().replace(" ", "_")
             ctx.fail("%s:%s:%s" % (prop, op, shape), what, replay)
         elif prop == "C06" and kind == "C07":
             ctx.fail("C06:%s:tree-not-well-formed" % op, what, replay)
